@@ -187,7 +187,7 @@ theorem nextToken_of_opens (s : B) (h : opensAsGroup s = true) (rest : B) :
 
 mutual
 /-- **the renderings covered by `C06_parse_sem_partial`**, decidable: every atom is `goodAtom` (unquoted values have
-    only plain bytes — no blank, quote, parenthesis — and backslash escapes; bare patterns are non-empty, not a lone
+    only plain bytes — no blank, no quote —, backslash escapes and balanced parentheses; bare patterns are non-empty, not a lone
     parenthesis, and when unquoted do not start with `-` or a field prefix and are not `or`); every group is
     one the tokenizer opens as a group (`opensAsGroup`: a blank is reached while its parenthesis is open —
     the complement is the known finding "tight group") -/
